@@ -116,7 +116,6 @@ Proof.
   cbn [unroot length Nat.eqb drop_up app negb andb orb].
   set (e3 := mkE _ _ _ _).
   set (t := UNode EmptyString [] [Some (ea, a); Some (eb, b); Some (e3, UNode EmptyString [] [Some (ec, c); Some (ed, d'); None])]).
-  assert (Tt : is_tip t = false) by reflexivity. rewrite Tt.
   eexists. split; [reflexivity|].
   assert (TN : tnames t = map tip_name (seq 0 (2 ^ S (S d)))).
   { unfold t. unfold tnames, tn_own, tn_h in *. rewrite mu_unfold. cbn [length Nat.eqb app].
@@ -146,9 +145,10 @@ Qed.
 Theorem balanced_tree_small rooted ls : exists msg, balanced_tree 0 rooted ls = GErr msg.
 Proof. unfold balanced_tree. simpl. eauto. Qed.
 
-(** depth 1 is accepted by the size test, and crashes when unrooted (UnRoot leaves a tip as root) *)
-Theorem balanced_depth1_unrooted_crash ls : balanced_tree 1 false ls = GPanic.
-Proof. reflexivity. Qed.
+(** depth 1 unrooted: UnRoot joins the two tips by one branch; the root is the tip Tip1 *)
+Theorem balanced_depth1_unrooted ls :
+  exists e, balanced_tree 1 false ls = GOk (UNode (tip_name 1) [] [Some (e, UNode (tip_name 0) [] [None])]).
+Proof. eexists. reflexivity. Qed.
 
 (** ** StarTree *)
 Lemma star_slots_tn names :
